@@ -303,6 +303,7 @@ impl Evidence {
 pub struct SubReport {
     pub name: String,
     pub engine: &'static str,
+
     pub rule: String,
     pub acc: Acc,
     pub exhaustive: bool,
